@@ -24,10 +24,24 @@
     compares bit for bit with the compiled code (`ieee_model_laws`; finite values, no
     overflow; libm's logf enters as a monotone table, expf as a monotone function).  The
     linear map is exact over `Rat`.
+  * logarithmic-scale parameters: `PortWF` demands that the lower end of the range handed to
+    `logf` be positive (`log_scale_needs_positive_bound` shows why; the compiled code emits
+    NaN for such a port), and `Laws.logf_mono` is assumed for positive arguments only.  The
+    default map is `expf(logf lo + x·(logf hi − logf lo))`: exactly, over `Rat` for every pair
+    of functions standing for `logf`/`expf` (`default_gain_log`) and over the reals with
+    `Real.log`/`Real.exp` (`default_gain_log_real`, value inside `[lo,hi]` itself); the float
+    model's argument of `expf` is within `86·2⁻²⁴·(max|logf bound| + 2⁻¹²⁶)` of the exact one
+    (`default_gain_log_float_deviation`).  The range of a log-scale port that declares `logmin`
+    is `[logmin, max]` whatever `min` is (`log_bounds_stored`,
+    `logmin_within_declared_range`, `logmin_below_min_counterexample`).
 -/
 import RtoscModel.Proofs.AutoLemmas
 import RtoscModel.Proofs.AutoFloatLemmas
 import RtoscModel.Proofs.AutoBind
+import RtoscModel.Proofs.AutoExtLog
+import RtoscModel.Proofs.AutoExtReal
+import RtoscModel.Proofs.AutoExtNrpn
+import RtoscModel.Proofs.AutoExtDev
 namespace Rtosc.Auto
 open Rtosc
 variable {F : Type}
@@ -191,6 +205,237 @@ theorem default_gain_linear (n p : Nat) (m : Mgr Rat) (hr : Reachable exact n p 
     bit for bit with the implementation. -/
 theorem ieee_model_laws (tab : List (Rat × Rat)) : Laws (IEEE.ieee tab) := IEEE.ieee_laws tab
 
+
+/-! ### logarithmic-scale parameters -/
+
+/-- **default_gain_log** ("at the default gain and offset, maps slot values 0..1 ... onto
+    min..max", for a port whose metadata say scale=logarithmic), exactly, over `Rat`, for EVERY
+    pair of functions `lg`/`ex` standing for `logf`/`expf` with `lg` monotone on positive
+    arguments: a used automation of a reachable state that is bound to the log-scale port `port`
+    under `path` and has gain 100 and offset 0 emits, at a slot value `x` in [0,1], exactly
+    `logMsg`: the value `ex (lg lo + x·(lg hi − lg lo))` (rounded half away from zero for an
+    integer parameter), where `lo..hi` is the port's declared range (`portRange`: `logmin` if
+    declared, else `min`, up to `max`), which is positive and ordered. -/
+theorem default_gain_log (lg ex : Rat → Rat) (hmono : ∀ a b : Rat, 0 < a → a ≤ b → lg a ≤ lg b)
+    (n p : Nat) (m : Mgr Rat) (hr : Reachable (exactLog lg ex) n p m)
+    (sl : Slot Rat) (hsl : sl ∈ m.slots) (au : Automation Rat) (hau : au ∈ sl.autos)
+    (hu : au.used = true) (hg : au.gain = 100) (ho : au.offset = 0)
+    (path : Bytes) (port : PortInfo Rat) (hb : au.bound = some (path, port)) (hs : port.scaleLog = true)
+    (x : Rat) (hx0 : 0 ≤ x) (hx1 : x ≤ 1) :
+    ∃ lo hi : Rat, (portType port = 'i' ∨ portType port = 'f') ∧
+      portRange (exactLog lg ex) port = some (lo, hi) ∧ 0 < lo ∧ lo ≤ hi ∧
+      emit (exactLog lg ex) au x = [logMsg lg ex path (portType port) lo hi x] := by
+  have hgood := (inv_reachable (exactLog lg ex) n p m hr).good sl hsl au hau
+  obtain ⟨lo, hi, h1, h2, h3, h4, h5⟩ :=
+    emit_default_log (exactLog_isExact lg ex) hmono au hgood hu hg ho path port hb hs x hx0 hx1
+  exact ⟨lo, hi, h1, h2, h3, h4, by rw [h5, logMsgK_exactLog]⟩
+
+/-- **default_gain_log_real**: the same over the real numbers with the real logarithm and
+    exponential (`realArith`: every operation of the code performed exactly, `logf = Real.log`,
+    `expf = Real.exp`) — the arithmetic the statement is phrased in.  The emitted value is
+    `exp(log lo + x·(log hi − log lo))`; it lies between the declared bounds `lo` and `hi`
+    themselves and is `lo` at slot value 0 and `hi` at slot value 1. -/
+theorem default_gain_log_real (n p : Nat) (m : Mgr ℝ) (hr : Reachable realArith n p m)
+    (sl : Slot ℝ) (hsl : sl ∈ m.slots) (au : Automation ℝ) (hau : au ∈ sl.autos)
+    (hu : au.used = true) (hg : au.gain = 100) (ho : au.offset = 0)
+    (path : Bytes) (port : PortInfo ℝ) (hb : au.bound = some (path, port)) (hs : port.scaleLog = true)
+    (x : ℝ) (hx0 : 0 ≤ x) (hx1 : x ≤ 1) :
+    ∃ lo hi : ℝ, (portType port = 'i' ∨ portType port = 'f') ∧
+      portRange realArith port = some (lo, hi) ∧ 0 < lo ∧ lo ≤ hi ∧
+      emit realArith au x = [logMsgReal path (portType port) lo hi x] ∧
+      lo ≤ Real.exp (Real.log lo + x * (Real.log hi - Real.log lo)) ∧
+      Real.exp (Real.log lo + x * (Real.log hi - Real.log lo)) ≤ hi ∧
+      Real.exp (Real.log lo + 0 * (Real.log hi - Real.log lo)) = lo ∧
+      Real.exp (Real.log lo + 1 * (Real.log hi - Real.log lo)) = hi := by
+  have hgood := (inv_reachable realArith n p m hr).good sl hsl au hau
+  obtain ⟨lo, hi, h1, h2, h3, h4, h5⟩ :=
+    emit_default_log realArith_isExact realLog_mono_pos au hgood hu hg ho path port hb hs x hx0 hx1
+  have hrange := logInterp_range lo hi x h3 h4 hx0 hx1
+  have hends := logInterp_ends lo hi h3 h4
+  exact ⟨lo, hi, h1, h2, h3, h4, by rw [h5, logMsgK_real], hrange.1, hrange.2, hends.1, hends.2⟩
+
+/-- **default_gain_log_float_deviation** (how far the float arithmetic of the code is from
+    the exact logarithmic map): in the IEEE-754 model the driver runs — the one compared bit
+    for bit with the compiled code — a used automation bound to the log-scale port `port`
+    under `path`, at gain 100 and offset 0, emits for a slot value `x` in [0,1] one message
+    whose value is `expf c` (the model reports `c`, the argument of `expf`), where `c` lies
+    between the stored bounds `L0 = logf lo`, `L1 = logf hi` (`lo..hi` the port's declared
+    range) and differs from the exact interpolation `L0 + x·(L1 − L0)` by at most
+    `86·2⁻²⁴·(max(|L0|,|L1|) + 2⁻¹²⁶)` (`IEEE.u32 = 2⁻²⁴`, `IEEE.tiny = 2⁻¹²⁶`): sixteen
+    roundings of at most half a unit in the last place each.  Hence the emitted value is the
+    exact one times `exp(±that)`, up to libm's own rounding of `logf`/`expf`. -/
+theorem default_gain_log_float_deviation (tab : List (Rat × Rat)) (n p : Nat) (m : Mgr Rat)
+    (hr : Reachable (IEEE.ieee tab) n p m)
+    (sl : Slot Rat) (hsl : sl ∈ m.slots) (au : Automation Rat) (hau : au ∈ sl.autos)
+    (hu : au.used = true) (hg : au.gain = 100) (ho : au.offset = 0)
+    (path : Bytes) (port : PortInfo Rat) (hb : au.bound = some (path, port)) (hs : port.scaleLog = true)
+    (x : Rat) (hx0 : 0 ≤ x) (hx1 : x ≤ 1) :
+    ∃ lo hi c : Rat, portRange (IEEE.ieee tab) port = some (lo, hi) ∧
+      emit (IEEE.ieee tab) au x =
+        [ if portType port = 'i' then
+            { addr := path, ty := 'i', val := .int (IEEE.trunc (IEEE.roundAway c)), expArg := some c }
+          else { addr := path, ty := 'f', val := .flt c, expArg := some c } ] ∧
+      IEEE.logOfTable tab lo ≤ c ∧ c ≤ IEEE.logOfTable tab hi ∧
+      |c - (IEEE.logOfTable tab lo + x * (IEEE.logOfTable tab hi - IEEE.logOfTable tab lo))| ≤
+        86 * IEEE.u32 * (max |IEEE.logOfTable tab lo| |IEEE.logOfTable tab hi| + IEEE.tiny) := by
+  have hgood := (inv_reachable (IEEE.ieee tab) n p m hr).good sl hsl au hau
+  obtain ⟨lo, hi, hrg, _, e1, e2, hty, hl, q1, q2, hcp, hfp⟩ :=
+    bound_log_facts (IEEE.ieee tab) au hgood hu path port hb hs
+  have hm := (fromPort_facts (IEEE.ieee_laws tab) au hfp).2
+  simp only [IEEE.ieee, decide_eq_true_eq] at hm
+  rw [hg, ho] at hcp
+  obtain ⟨c, h1, h2, h3, h4⟩ := IEEE.ieee_log_arg_deviation tab au x hu (by rw [e2]; exact hty) hl hcp hm
+    (max |au.pmin| |au.pmax|) (le_max_left _ _) (le_max_right _ _) hx0 hx1
+  have p0 : au.pmin = IEEE.logOfTable tab lo := q1
+  have p1 : au.pmax = IEEE.logOfTable tab hi := q2
+  rw [e1, e2] at h1
+  rw [p0] at h2 h4
+  rw [p1] at h3 h4
+  exact ⟨lo, hi, c, hrg, h1, h2, h3, h4⟩
+
+/-- **log_bounds_stored** (no hypothesis on the arithmetic): in every reachable state a used
+    automation bound to a log-scale port stores `logf` of the ends of the port's declared range
+    `portRange` — `logf(logmin)` if the port declares `logmin`, WHATEVER its `min` is, else
+    `logf(min)`; and `logf(max)` — and that lower end is positive (`PortWF`). -/
+theorem log_bounds_stored (A : Arith F) (n p : Nat) (m : Mgr F) (hr : Reachable A n p m)
+    (sl : Slot F) (hsl : sl ∈ m.slots) (au : Automation F) (hau : au ∈ sl.autos) (hu : au.used = true)
+    (path : Bytes) (port : PortInfo F) (hb : au.bound = some (path, port)) (hs : port.scaleLog = true) :
+    au.logScale = true ∧
+    ∃ lo hi, portRange A port = some (lo, hi) ∧ A.le lo A.zero = false ∧
+      au.pmin = A.logf lo ∧ au.pmax = A.logf hi ∧
+      (∀ l, port.logmin = some l → lo = A.to32 l) := by
+  obtain ⟨hfp, _⟩ := ((inv_reachable A n p m hr).good sl hsl au hau).1 hu
+  obtain ⟨au0, b, path', p', hw, hp, hlen, hbi, e0, e1, e2, e3, e4, e5⟩ := hfp
+  rw [hb] at e0
+  simp only [Option.some.injEq, Prod.mk.injEq] at e0
+  obtain ⟨rfl, rfl⟩ := e0
+  obtain ⟨s1, s2, s3, lo, hi, hrg, _, hlog⟩ := bindInfo_spec A au0 b path port hw hlen hbi
+  obtain ⟨q1, q2⟩ := hlog hs
+  refine ⟨by rw [e5, s3]; exact hs, lo, hi, hrg, hw.2.2 hs lo hi hrg, by rw [e3, q1], by rw [e4, q2], ?_⟩
+  intro l hl
+  unfold portRange at hrg
+  split at hrg
+  · rename_i hT
+    have : port.scaleLog = false := by
+      unfold portType at hT
+      by_cases hF : port.hasF = true
+      · simp [hF] at hT
+      · by_cases hT' : port.hasT = true
+        · exact hw.2.1 (by simpa using hF) hT'
+        · simp [hF, hT'] at hT
+    rw [hs] at this; cases this
+  · split at hrg
+    · simp only [hl, Option.map_some, Option.getD_some, Option.some.injEq, Prod.mk.injEq] at hrg
+      exact hrg.1.symm
+    · cases hrg
+
+/-- **logmin_within_declared_range**: a log-scale port whose `logmin` is not below its `min`
+    has its whole range `portRange = [logmin, max]` inside the declared `[min, max]`, so that
+    `emit_in_range_right_type` bounds its messages by the declared minimum as well. -/
+theorem logmin_within_declared_range (A : Arith F) (L : Laws A) (port : PortInfo F) (hw : PortWF A port)
+    (mn mx l : F) (hmn : port.min = some mn) (hmx : port.max = some mx) (hl : port.logmin = some l)
+    (hs : port.scaleLog = true) (hml : A.le mn l = true) :
+    portRange A port = some (A.to32 l, A.to32 mx) ∧
+    A.le (A.to32 mn) (A.to32 l) = true ∧ A.le (A.to32 l) (A.to32 mx) = true := by
+  have hT : portType port ≠ 'T' := by
+    unfold portType
+    by_cases hF : port.hasF = true
+    · simp [hF]
+    · by_cases hT' : port.hasT = true
+      · have := hw.2.1 (by simpa using hF) hT'
+        rw [hs] at this; cases this
+      · simp [hF, hT']
+  refine ⟨by simp [portRange, hT, hmn, hmx, hl, hs], L.to32_mono _ _ hml, L.to32_mono _ _ ((hw.1 mn mx hmn hmx).2 l hl)⟩
+
+/-- float port declared 10..100, logarithmic, with `logmin = 1` BELOW `min` -/
+def exPortLogminLow : PortInfo Rat :=
+  { hasF := true, hasT := false, min := some 10, max := some 100, logmin := some 1,
+    scaleLog := true, internal := false, noLearn := false }
+
+/-- **logmin_below_min_counterexample** (what `logmin < min` does): nothing in the code
+    compares `logmin` with `min`.  The port 10..100 with `logmin = 1` satisfies `PortWF`, and
+    with the decade logarithm `lg10`/`ex10` (exact on 1, 10, 100) the slot value 0 sends 1 —
+    below the declared minimum 10 — and the slot value 1 sends 100.  The range of such a port
+    is `[logmin, max]` (`portRange`, `log_bounds_stored`); it lies inside `[min, max]` exactly
+    when `min <= logmin` (`logmin_within_declared_range`). -/
+theorem logmin_below_min_counterexample :
+    PortWF (exactLog lg10 ex10) exPortLogminLow ∧
+    (run (exactLog lg10 ex10) (Mgr.init (exactLog lg10 ex10) 1 1)
+      [.bind 0 [47, 112] (some exPortLogminLow) false, .setSub 0 0 0, .setSub 0 0 1]).map
+        (fun r => r.2.map (fun ms => ms.map Msg.ratVal)) = some [[], [some 1], [some 100]] := by
+  refine ⟨⟨?_, by decide, ?_⟩, by decide +kernel⟩
+  · intro mn mx h1 h2; cases h1; cases h2
+    exact ⟨by decide, by intro l hl; cases hl; decide⟩
+  · intro _ lo hi h
+    have e : portRange (exactLog lg10 ex10) exPortLogminLow = some (1, 100) := by decide +kernel
+    rw [e] at h; cases h; decide
+
+/-- float port declared -100..10 with a logarithmic scale: the lower bound is not positive -/
+def exPortNeg : PortInfo Rat :=
+  { hasF := true, hasT := false, min := some (-100), max := some 10, logmin := none,
+    scaleLog := true, internal := false, noLearn := false }
+
+/-- **log_scale_needs_positive_bound** (why `PortWF` demands a positive lower end for a
+    log-scale port).  C's `logf` returns NaN for a negative and -infinity for a zero argument,
+    which this model's carriers do not contain; an arithmetic that does give `logf` a value
+    below zero cannot be monotone there.  Witness: `lgAbs` = log|x| on the decades (the
+    convention of real-analysis libraries), monotone on positive arguments, so that the order
+    laws `Laws` hold; the port -100..10 satisfies every clause of `PortWF` but positivity;
+    its stored bounds are `logf(-100) = 2 > 1 = logf(10)`, the clamp of setSlotSub then
+    returns one of the two bounds whatever the slot value is, and the slot value 1 sends 100:
+    above the declared maximum 10 (and the map is decreasing: slot value 0 sends 10). -/
+theorem log_scale_needs_positive_bound :
+    Laws (exactLog lgAbs ex10) ∧
+    ((∀ mn mx, exPortNeg.min = some mn → exPortNeg.max = some mx →
+        (exactLog lgAbs ex10).le mn mx = true ∧
+        (∀ l, exPortNeg.logmin = some l → (exactLog lgAbs ex10).le l mx = true)) ∧
+     (exPortNeg.hasF = false → exPortNeg.hasT = true → exPortNeg.scaleLog = false)) ∧
+    ¬ PortWF (exactLog lgAbs ex10) exPortNeg ∧
+    (run (exactLog lgAbs ex10) (Mgr.init (exactLog lgAbs ex10) 1 1)
+      [.bind 0 [47, 112] (some exPortNeg) false, .setSub 0 0 0, .setSub 0 0 1]).map
+        (fun r => r.2.map (fun ms => ms.map Msg.ratVal)) = some [[], [some 10], [some 100]] := by
+  refine ⟨exactLog_laws lgAbs ex10 lgAbs_mono_pos ex10_mono, ⟨?_, by decide⟩, ?_, by decide +kernel⟩
+  · intro mn mx h1 h2; cases h1; cases h2
+    exact ⟨by decide, by intro l hl; cases hl⟩
+  · intro hw
+    have e : portRange (exactLog lgAbs ex10) exPortNeg = some (-100, 10) := by decide +kernel
+    have := hw.2.2 rfl (-100) 10 e
+    revert this; decide
+
+/-! ### the learn queue and NRPN controllers -/
+
+/-- **unbound_nrpn_sequence_serves_head** ("bound, one per previously unbound controller, in
+    the order in which they asked", for an NRPN controller, on the wire): when the queue is
+    `hd :: Q'` and the four messages CC 99 = `a`, CC 98 = `b`, CC 6 = `v1`, CC 38 = `v2` of an
+    NRPN sequence arrive for a parameter number `a*128+b` that no slot is bound to, the first
+    three messages emit nothing, and after the fourth exactly slot `hd` is bound to the NRPN
+    `a*128+b`; every other NRPN binding and every plain-CC binding of every slot is unchanged
+    and the queue is `Q'`.  (`unbound_controller_serves_head` is the single-event form for
+    both kinds of controller.) -/
+theorem unbound_nrpn_sequence_serves_head (A : Arith F) (m : Mgr F) (hd : Nat) (Q' : List Nat)
+    (c a b v1 v2 : Int) (ha : 0 ≤ a) (hb : 0 ≤ b) (h1 : 0 ≤ v1) (h2 : 0 ≤ v2)
+    (h : Refines m (hd :: Q')) (hu : isBoundTo m true (a * 128 + b) = false) :
+    ∃ (m4 : Mgr F) (ms : List (Msg F)),
+      run A m [.midi c 99 a, .midi c 98 b, .midi c 6 v1, .midi c 38 v2] = some (m4, [[], [], [], ms]) ∧
+      Refines m4 Q' ∧
+      ∀ (i : Nat) (sl : Slot F), m.slots[i]? = some sl →
+        ∃ sl', m4.slots[i]? = some sl' ∧
+          sl'.midiNrpn = (if i = hd then a * 128 + b else sl.midiNrpn) ∧ sl'.midiCC = sl.midiCC := by
+  obtain ⟨hrun, hctl, _⟩ := nrpn_prefix A m c a b v1 v2 ha hb h1 h2
+  have hr3 : Refines (afterThree m a b v1) (hd :: Q') := refines_of_keys_eq rfl rfl h
+  have hu3 : isBoundTo (afterThree m a b v1) true (a * 128 + b) = false := hu
+  refine ⟨(handleMidi A (afterThree m a b v1) c 38 v2).1, (handleMidi A (afterThree m a b v1) c 38 v2).2, ?_, ?_, ?_⟩
+  · have := run_append A m _ [.midi c 99 a, .midi c 98 b, .midi c 6 v1] [.midi c 38 v2] _ hrun
+    simp only [List.cons_append, List.nil_append] at this
+    rw [this]
+    simp [run, step]
+  · have := refines_midi A (afterThree m a b v1) (hd :: Q') c 38 v2 hr3
+    simpa [absStep, hctl, hu3] using this
+  · intro i sl hsl
+    obtain ⟨sl', e1, e2, e3⟩ :=
+      unbound_controller_serves_head A (afterThree m a b v1) hd Q' c 38 v2 true (a * 128 + b) hr3 hctl hu3 i sl hsl
+    exact ⟨sl', e1, by simpa [bindingOf] using e2, by simpa [bindingOf] using e3⟩
+
 /-! ### Non-vacuity -/
 
 /-- the order laws are satisfiable: exact rational arithmetic has them -/
@@ -218,10 +463,10 @@ example : ∀ op ∈ exHistory, OpWF exact op := by
   simp only [exHistory, List.mem_cons, List.not_mem_nil, or_false] at hop
   rcases hop with rfl | rfl | rfl | rfl | rfl | rfl | rfl | rfl <;> simp only [OpWF] <;> try decide
   · refine ⟨by decide, ?_⟩
-    intro p hp; cases hp; refine ⟨?_, by decide⟩
+    intro p hp; cases hp; refine ⟨?_, by decide, by intro h; cases h⟩
     intro mn mx h1 h2; cases h1; cases h2; exact ⟨by decide, by intro l hl; cases hl⟩
   · refine ⟨by decide, ?_⟩
-    intro p hp; cases hp; refine ⟨?_, by decide⟩
+    intro p hp; cases hp; refine ⟨?_, by decide, by intro h; cases h⟩
     intro mn mx h1 h2; cases h1; cases h2; exact ⟨by decide, by intro l hl; cases hl⟩
 
 /-- after the clear both requests are still numbered 1, 2 (the unrepaired code gives 0, 1);
@@ -264,5 +509,148 @@ example : ¬ MsgOKPort exact [47, 112, 97] exPortI { addr := [47, 112, 97], ty :
 
 example : ¬ MsgOKPort exact [47, 112, 97] exPortI { addr := [47, 112, 98], ty := 'i', val := .int 64 } := by
   rintro ⟨h, _⟩; exact absurd h (by decide)
+
+/-! #### logarithmic scale -/
+
+/-- float port declared 1..100 with a logarithmic scale -/
+def exPortLog : PortInfo Rat :=
+  { hasF := true, hasT := false, min := some 1, max := some 100, logmin := none,
+    scaleLog := true, internal := false, noLearn := false }
+
+/-- the hypotheses of `default_gain_log` are satisfiable: the decade logarithm is monotone,
+    the port is well-formed (its lower bound is positive), binding it in a fresh manager gives
+    a reachable state with a used automation at gain 100 / offset 0 bound to that port -/
+example : (∀ a b : Rat, 0 < a → a ≤ b → lg10 a ≤ lg10 b) ∧ PortWF (exactLog lg10 ex10) exPortLog ∧
+    ∃ (m : Mgr Rat) (sl : Slot Rat) (au : Automation Rat),
+      Reachable (exactLog lg10 ex10) 1 1 m ∧ sl ∈ m.slots ∧ au ∈ sl.autos ∧ au.used = true ∧
+      au.gain = 100 ∧ au.offset = 0 ∧ au.bound = some ([47, 112], exPortLog) ∧ exPortLog.scaleLog = true := by
+  have hw : PortWF (exactLog lg10 ex10) exPortLog := by
+    refine ⟨?_, by decide, ?_⟩
+    · intro mn mx h1 h2; cases h1; cases h2
+      exact ⟨by decide, by intro l hl; cases hl⟩
+    · intro _ lo hi h
+      have e : portRange (exactLog lg10 ex10) exPortLog = some (1, 100) := by decide +kernel
+      rw [e] at h; cases h; decide
+  refine ⟨fun a b _ h => lg10_mono a b h, hw, ?_⟩
+  obtain ⟨m', sl, au, hs, h1, h2, h3, h4, h5, h6⟩ :=
+    bind_fresh (exactLog lg10 ex10) [47, 112] exPortLog 1 100 rfl rfl rfl rfl rfl
+  exact ⟨m', sl, au, Reachable.step (op := .bind 0 [47, 112] (some _) false) Reachable.init
+      (show _ ∧ _ from ⟨by decide, fun p hp => by cases hp; exact hw⟩) hs,
+    h1, h2, h3, h4, h5, h6, rfl⟩
+
+/-- … and the map is the logarithmic one: slot values 0, 1/2, 1 send 1, 10 (the geometric
+    mean of the bounds), 100 -/
+example : (run (exactLog lg10 ex10) (Mgr.init (exactLog lg10 ex10) 1 1)
+      [.bind 0 [47, 112] (some exPortLog) false, .setSub 0 0 0, .setSub 0 0 (1/2), .setSub 0 0 1]).map
+        (fun r => r.2.map (fun ms => ms.map Msg.ratVal)) = some [[], [some 1], [some 10], [some 100]] := by
+  decide +kernel
+
+example : logMsg lg10 ex10 [47, 112] 'f' 1 100 (1/2) =
+    { addr := [47, 112], ty := 'f', val := .flt 10, expArg := some 1 } := by
+  simp [logMsg, lg10, ex10]; norm_num
+
+/-- the table of libm's `logf` on the bounds 1 and 100 (`logf(100) = 0x40935d8e`) -/
+def exLogTab : List (Rat × Rat) := [(1, 0), (100, 4828871 / 1048576)]
+
+/-- the hypotheses of `default_gain_log_float_deviation` are satisfiable: the port 1..100 is
+    well-formed for the float model and binding it gives a reachable state; and the bound is
+    small: `86·2⁻²⁴·(logf(100) + 2⁻¹²⁶) < 2.4e-5` -/
+example : (∃ (m : Mgr Rat) (sl : Slot Rat) (au : Automation Rat),
+      Reachable (IEEE.ieee exLogTab) 1 1 m ∧ sl ∈ m.slots ∧ au ∈ sl.autos ∧ au.used = true ∧
+      au.gain = 100 ∧ au.offset = 0 ∧ au.bound = some ([47, 112], exPortLog) ∧ exPortLog.scaleLog = true) ∧
+    86 * IEEE.u32 * (max |IEEE.logOfTable exLogTab 1| |IEEE.logOfTable exLogTab 100| + IEEE.tiny) < 24 / 1000000 := by
+  have hw : PortWF (IEEE.ieee exLogTab) exPortLog := by
+    refine ⟨?_, by decide, ?_⟩
+    · intro mn mx h1 h2; cases h1; cases h2
+      exact ⟨by decide, by intro l hl; cases hl⟩
+    · intro _ lo hi h
+      have e : portRange (IEEE.ieee exLogTab) exPortLog = some (1, 100) := by decide +kernel
+      rw [e] at h; cases h; decide
+  refine ⟨?_, ?_⟩
+  · obtain ⟨m', sl, au, hs, h1, h2, h3, h4, h5, h6⟩ :=
+      bind_fresh (IEEE.ieee exLogTab) [47, 112] exPortLog 1 100 rfl rfl rfl rfl rfl
+    exact ⟨m', sl, au, Reachable.step (op := .bind 0 [47, 112] (some _) false) Reachable.init
+        (show _ ∧ _ from ⟨by decide, fun p hp => by cases hp; exact hw⟩) hs,
+      h1, h2, h3, h4, h5, h6, rfl⟩
+  · have e0 : IEEE.logOfTable exLogTab 1 = 0 := by decide +kernel
+    have e1 : IEEE.logOfTable exLogTab 100 = 4828871 / 1048576 := by decide +kernel
+    rw [e0, e1]
+    norm_num [IEEE.u32, IEEE.tiny]
+
+/-- float port declared 1..100 with a logarithmic scale, over the reals -/
+noncomputable def exPortLogReal : PortInfo ℝ :=
+  { hasF := true, hasT := false, min := some 1, max := some 100, logmin := none,
+    scaleLog := true, internal := false, noLearn := false }
+
+/-- the hypotheses of `default_gain_log_real` are satisfiable -/
+example : ∃ (m : Mgr ℝ) (sl : Slot ℝ) (au : Automation ℝ),
+      Reachable realArith 1 1 m ∧ sl ∈ m.slots ∧ au ∈ sl.autos ∧ au.used = true ∧
+      au.gain = 100 ∧ au.offset = 0 ∧ au.bound = some ([47, 112], exPortLogReal) ∧
+      exPortLogReal.scaleLog = true := by
+  have hw : PortWF realArith exPortLogReal := by
+    refine ⟨?_, by simp [exPortLogReal], ?_⟩
+    · intro mn mx h1 h2
+      simp only [exPortLogReal, Option.some.injEq] at h1 h2
+      subst h1; subst h2
+      exact ⟨by simp [realArith], by intro l hl; simp [exPortLogReal] at hl⟩
+    · intro _ lo hi h
+      simp [portRange, portType, exPortLogReal, realArith] at h
+      simp [realArith, ← h.1]
+  obtain ⟨m', sl, au, hs, h1, h2, h3, h4, h5, h6⟩ :=
+    bind_fresh realArith [47, 112] exPortLogReal 1 100 rfl rfl rfl rfl rfl
+  exact ⟨m', sl, au, Reachable.step (op := .bind 0 [47, 112] (some _) false) Reachable.init
+      (show _ ∧ _ from ⟨by decide, fun p hp => by cases hp; exact hw⟩) hs,
+    h1, h2, h3, h4, h5, h6, rfl⟩
+
+/-! #### NRPN learning -/
+
+/-- slot 0 and slot 1 ask for learning; the NRPN sequence 99=1, 98=2, 6=3, 38=4 teaches slot 0
+    (the oldest request) the NRPN 1*128+2 = 130; a plain CC then teaches slot 1 -/
+example : (run exact (Mgr.init exact 2 1)
+      [.bind 0 [47, 112, 97] (some exPortI) true, .bind 1 [47, 112, 98] (some exPortF) true,
+       .midi 0 99 1, .midi 0 98 2, .midi 0 6 3, .midi 0 38 4, .midi 0 7 64]).map (fun r => keys r.1) =
+    some [(-1, -1, 130), (-1, 7, -1)] := by decide +kernel
+
+/-- the hypotheses of `unbound_nrpn_sequence_serves_head` are satisfiable: after the two
+    requests the state refines the queue [0, 1] and no slot is bound to NRPN 130 -/
+example : ∃ m : Mgr Rat, (run exact (Mgr.init exact 2 1)
+      [.bind 0 [47, 112, 97] (some exPortI) true, .bind 1 [47, 112, 98] (some exPortF) true]).map (·.1) = some m ∧
+    Refines m [0, 1] ∧ isBoundTo m true 130 = false := by
+  cases hrun : (run exact (Mgr.init exact 2 1)
+      [.bind 0 [47, 112, 97] (some exPortI) true, .bind 1 [47, 112, 98] (some exPortF) true]) with
+  | none => exact absurd hrun (by decide +kernel)
+  | some r =>
+    obtain ⟨m, mss⟩ := r
+    refine ⟨m, rfl, ?_, ?_⟩
+    · simp only [run] at hrun
+      cases h1 : step exact (Mgr.init exact 2 1) (.bind 0 [47, 112, 97] (some exPortI) true) with
+      | none => simp [h1] at hrun
+      | some r1 =>
+        obtain ⟨m1, ms1⟩ := r1
+        simp only [h1] at hrun
+        cases h2 : step exact m1 (.bind 1 [47, 112, 98] (some exPortF) true) with
+        | none => simp [h2] at hrun
+        | some r2 =>
+          obtain ⟨m2, ms2⟩ := r2
+          simp only [h2, Option.some.injEq, Prod.mk.injEq] at hrun
+          obtain ⟨rfl, _⟩ := hrun
+          have q1 := refines_step exact _ _ [] _ _ (refines_init exact 2 1) h1
+          have q2 := refines_step exact _ _ _ _ _ q1 h2
+          have e1 : absStep (Mgr.init exact 2 1) (.bind 0 [47, 112, 97] (some exPortI) true) [] = [0] := by
+            decide +kernel
+          rw [e1] at q2
+          have hm1 : m1 = (createBinding exact (Mgr.init exact 2 1) 0 [47, 112, 97] (some exPortI) true).get (by decide +kernel) := by
+            simp only [step, Option.map_eq_some_iff, Prod.mk.injEq] at h1
+            obtain ⟨x, hx, rfl, _⟩ := h1
+            simp [hx]
+          have e2 : absStep m1 (.bind 1 [47, 112, 98] (some exPortF) true) [0] = [0, 1] := by
+            rw [hm1]; decide +kernel
+          rw [e2] at q2
+          exact q2
+    · have : (run exact (Mgr.init exact 2 1)
+        [.bind 0 [47, 112, 97] (some exPortI) true, .bind 1 [47, 112, 98] (some exPortF) true]).map
+          (fun r => isBoundTo r.1 true 130) = some false := by decide +kernel
+      rw [hrun] at this
+      simpa using this
 
 end Rtosc.Auto
